@@ -9,6 +9,8 @@
 
 mod reusable_box;
 mod vector;
+#[cfg(eyeball_verif)]
+pub mod verif;
 
 pub use vector::{
     ObservableVector, ObservableVectorEntries, ObservableVectorEntry, ObservableVectorTransaction,
